@@ -1,2 +1,6 @@
 import Proofs.C20
-#print axioms C20.failed_upload_leaves_records
+#print axioms C20.reachable_wf
+#print axioms C20.single_fault_atomic
+#print axioms C20.ids_format_monotone
+#print axioms C20.id_has_request_day
+#print axioms C20.ids_unique_all_interleavings
